@@ -57,3 +57,7 @@ Definition Phys (f : fs) (p : path) : Prop := phys_from f [] p.
 (* realpath finished without giving up at a symbolic-link loop (for the whole path p from "/") *)
 Definition no_loop_met (f : fs) (p : path) : Prop :=
   forall s, joinreal (rfuel f p) f [] [] (map Seg p) <> RP_partial s.
+
+(* f is a tree: whatever is stored below "/" sits in a directory *)
+Definition wf_fs (f : fs) : Prop :=
+  forall p s n, p <> [] -> lookup f (p ++ [s]) = Some n -> lookup f p = Some NDir.
